@@ -1848,7 +1848,10 @@ class Join:
         :return:
             A copy of the join with the tables replaced.
         """
-        self.item = self.item.replace_table(current_table, new_table)
+        if self.item == current_table:
+            self.item = new_table  # type:ignore[assignment]
+        elif isinstance(self.item, QueryBuilder):
+            self.item = self.item.replace_table(current_table, new_table)
 
 
 class JoinOn(Join):
